@@ -553,6 +553,25 @@ func (cx *c03ctx) exec(line string) {
 		}
 		w = sw
 	}
+	// `vseq <r|c> <cell> <n> {<kind> <raw input>}^n`: SetSheetRow / SetSheetCol with typed values; the model
+	// computes the stored tokens of every element (GridPayload.setSheetCells)
+	if w[0] == "vseq" {
+		n, _ := strconv.Atoi(w[3])
+		if len(w) != 4+2*n {
+			emit(line, "bad-op")
+			return
+		}
+		sw := []string{"seq", w[1], w[2], w[3]}
+		for i := 0; i < n; i++ {
+			one, ok := c03valToSet([]string{"val", w[4+2*i], w[2], w[5+2*i]})
+			if !ok {
+				emit(line, "bad-op")
+				return
+			}
+			sw = append(sw, one[1], one[3], one[4], one[5])
+		}
+		w = sw
+	}
 	switch w[0] {
 	case "new":
 		if cx.f != nil {
@@ -901,6 +920,9 @@ func (cx *c03ctx) exec(line string) {
 			case "int":
 				x, _ := strconv.ParseInt(unhx(v.b), 10, 64)
 				vals = append(vals, int(x))
+			case "uint":
+				x, _ := strconv.ParseUint(unhx(v.b), 10, 64)
+				vals = append(vals, x)
 			case "bool":
 				vals = append(vals, unhx(v.b) == "1")
 			case "str":
@@ -1471,18 +1493,20 @@ func (g *c03gen) transcript(mode, nOps int) {
 			}
 			var sb strings.Builder
 			for j := 0; j < n; j++ {
-				switch rng.Intn(4) {
+				switch rng.Intn(5) {
 				case 0:
-					sb.WriteString(" int.val tv ~ " + hx(strconv.Itoa(rng.Range(-5, 500))))
+					sb.WriteString(" int " + strconv.Itoa(rng.Range(-5, 500)))
 				case 1:
-					sb.WriteString(" bool.val tv b " + hx(strconv.Itoa(rng.Intn(2))))
+					sb.WriteString(" bool " + strconv.Itoa(rng.Intn(2)))
 				case 2:
-					sb.WriteString(" str.val sst " + c03tokS(c03strings[rng.Intn(len(c03strings))]) + " ~")
+					sb.WriteString(" str " + hx(c03strings[rng.Intn(len(c03strings))]))
+				case 3:
+					sb.WriteString(" uint " + strconv.Itoa(rng.Range(0, 70000)))
 				default:
-					sb.WriteString(" dflt.nil clr ~ ~")
+					sb.WriteString(" nil ~")
 				}
 			}
-			cx.exec(fmt.Sprintf("seq %s %s %d%s", dir, hx(cell), n, sb.String()))
+			cx.exec(fmt.Sprintf("vseq %s %s %d%s", dir, hx(cell), n, sb.String()))
 		case k < mergeW+40:
 			if l := g.timeLine(cell); l != "" {
 				cx.exec(l)
@@ -1550,6 +1574,7 @@ var c03witnesses = [][]string{
 	{"new 1", "set int XFD1048576 tv ~ " + hx("1"), "get XFD1048576", "get XFD1048575", "get A1", "set int A1048576 tv ~ " + hx("2"), "get A1048576"},
 	{"new 1", "set int XFE1 tv ~ " + hx("1"), "set int A1048577 tv ~ " + hx("1"), "set int A0 tv ~ " + hx("1"), "mrg A1 XFE2", "sty A1 A0 0", "get $A$1", "get A01", "frm 1A " + hx("1")},
 	{"new 1", "seq r XFC1 4 int.val tv ~ " + hx("1") + " int.val tv ~ " + hx("2") + " int.val tv ~ " + hx("3") + " int.val tv ~ " + hx("4")},
+	{"new 1", "vseq r XFC1 4 int 1 str " + hx("two") + " bool 1 nil ~", "vseq c B1048575 3 int 7 uint 8 str " + hx("_x0041_"), "vseq r A1 3 str - int -1 nil ~"},
 	{"new 1", "seq c A1048575 3 int.val tv ~ " + hx("1") + " int.val tv ~ " + hx("2") + " int.val tv ~ " + hx("3")},
 	{"new 2", "sty B2 C3 5", "sty C3 B2 1", "sty B2 B2 -1", "set int B2 tv ~ " + hx("5"), "gsty B2", "set dflt.nil B2 clr ~ ~", "gsty B2"},
 	{"new 1", "val str A1 " + hx(strings.Repeat("y", 32772)), "val str A2 " + hx(strings.Repeat("é", 32767)+"zz"), "val str A3 " + hx("_x0041_"),
@@ -1569,7 +1594,7 @@ func c03encodeWitness(g *c03gen, line string) string {
 	case "mrg", "unm", "sty":
 		enc(1)
 		enc(2)
-	case "set", "seq", "val":
+	case "set", "seq", "val", "vseq":
 		enc(2)
 	case "get", "gsty", "frm", "hl", "hlget", "hlrm":
 		enc(1)
